@@ -42,3 +42,10 @@ contract("specs.sess:lemma_chunk",
 
 contract("specs.sess:lemma_residue_incomplete", requires=[],
          ensures=["not tlv_complete(residue(s))", "len(residue(s)) <= len(s)", "0 <= nframes(s)"], decreases="len(s)")
+
+# C02, the fold over a partition: no paper step left
+contract("specs.sess:lemma_any_chunking",
+         requires=["0 <= i", "not tlv_complete(r)"],
+         ensures=["deliver_msgs(r, chunks, i, o) == msgs(cat(r, joined(chunks, i)), o)",
+                  "deliver_residue(r, chunks, i) == residue(cat(r, joined(chunks, i)))"],
+         decreases="len(chunks) - i")
